@@ -153,7 +153,7 @@ def build_cases(seed, quick=True):
     chosen = []
     for key in sorted(by):
         ws = sorted(by[key], key=lambda w: json.dumps(w, sort_keys=True))
-        chosen += rng.sample(ws, min(len(ws), 2 if quick else 8))
+        chosen += rng.sample(ws, min(len(ws), 1 if quick else 8))
 
     def dname_(grp, L, i):
         nid = 'D%s%d_%d' % (grp, L, i)
@@ -181,4 +181,121 @@ def build_cases(seed, quick=True):
             for v in variants:
                 k += 1
                 cases.append(('p%d' % k, base + v, 3))
+    for fn in (ce_cases, fid_cases):
+        n2, c2, s2 = fn(seed, quick)
+        names.update(n2)
+        cases += c2
+        stats += s2
     return names, cases, stats
+
+
+CE_CFG = '''SPECIFICATION Spec
+CONSTANTS
+ Base = %(Base)d
+ Block = 2048
+ MaxLive = %(MaxLive)d
+ MaxOps = %(MaxOps)d
+INVARIANT NoOverlap
+INVARIANT InBlock
+CONSTRAINT Witness
+VIEW View
+CHECK_DEADLOCK FALSE
+'''
+
+
+def ce_witnesses(base, maxlive, maxops, workers=8):
+    out, stats = tlc.run_tlc('CeAlloc', CE_CFG % dict(Base=base, MaxLive=maxlive, MaxOps=maxops),
+                             workers=workers, timeout=600)
+    tlc.need_ok(out, stats, 'CeAlloc')
+    wits = [v for (tag, v) in tlc.tagged_lines(out) if tag == 'WIT']
+    return wits, stats
+
+
+def ce_cases(seed, quick=True):
+    """continuation-area boundary witnesses -> (names, cases): long Rock Ridge names whose lengths
+    differ by one byte, added and removed so that an area lands exactly in / just misses a hole"""
+    import random
+    rng = random.Random('ce/%s' % seed)
+    base = 500
+    wits, st = ce_witnesses(base, 4, 6 if quick else 7)
+    by = {}
+    for w in wits:
+        by.setdefault((w['kind'], len(w['h'])), []).append(w)
+    chosen = []
+    for key in sorted(by):
+        ws = sorted(by[key], key=lambda w: json.dumps(w, sort_keys=True))
+        chosen += rng.sample(ws, min(len(ws), 4 if quick else 20))
+    names = {}
+    cases = []
+    k = 0
+    for w in chosen:
+        for (cfg, namelen) in (({'level': 3, 'joliet': 0, 'rr': '1.09', 'udf': False, 'xa': False}, 470),
+                               ({'level': 3, 'joliet': 0, 'rr': '1.12', 'udf': False, 'xa': False}, 470),
+                               ({'level': 1, 'joliet': 0, 'rr': '1.10', 'udf': False, 'xa': True}, 470)):
+            hist = [{'a': 'New', 'cfg': cfg, 'mode': 'lazy'}]
+            for op in w['h']:
+                if op[0] == 'add':
+                    cls = op[2] - base
+                    nid = 'c%d_%d' % (cls, op[1])
+                    if nid not in names:
+                        rr = nid + 'y' * (namelen + cls - len(nid))
+                        names[nid] = {'iso': 'C%d%d.;1' % (cls, op[1]), 'rr': rr, 'jol': nid, 'udf': nid}
+                    hist.append({'a': 'AddFp', 'blob': 's', 'iso': [nid], 'jol': ['-'], 'udf': ['-']})
+                else:
+                    nid = [n for n in names if n.endswith('_%d' % op[1])]
+                    nid = [a['iso'][0] for a in hist if a['a'] == 'AddFp' and a['iso'][0].endswith('_%d' % op[1])][-1]
+                    hist.append({'a': 'RmFile', 'ns': 'iso', 'p': [nid]})
+            k += 1
+            cases.append(('q%d' % k, hist, 8))
+            k += 1
+            cases.append(('q%d' % k, hist + [{'a': 'Reopen', 'same': False}], 8))
+    return names, cases, [st]
+
+
+def fid_cases(seed, quick=True):
+    """UDF directories whose File Identifier Descriptors end exactly on / just across a sector boundary
+    (FID length = 38 + 1 + name bytes, padded to 4; FIDs are packed contiguously, head = parent FID 40)"""
+    import random
+    import string
+    rng = random.Random('fid/%s' % seed)
+    wits, st = witnesses('ptable', [40, 44, 48], 56, 2, 40, 2048)
+    by = {}
+    for w in wits:
+        if (w['l1'] == 40 and w['n1'] > 50) or (w['l2'] == 40 and w['n2'] > 0):
+            continue    # one-character names: only ~60 exist, keep them in the first group
+        by.setdefault((w['kind'], w['unit'], w['n2'] > 0), []).append(w)
+    chosen = []
+    for key in sorted(by):
+        ws = sorted(by[key], key=lambda w: json.dumps(w, sort_keys=True))
+        chosen += rng.sample(ws, min(len(ws), 2 if quick else 8))
+    alpha = string.ascii_lowercase + string.ascii_uppercase + string.digits
+    names = {}
+
+    def uname(grp, L, i):
+        nid = 'u%s%d_%d' % (grp, L, i)
+        if nid not in names:
+            n = {40: 1, 44: 5, 48: 9}[L]
+            if n == 1:
+                s = alpha[i]
+            else:
+                s = ('%s%03d' % (grp, i)) + 'u' * (n - 4)
+            names[nid] = {'iso': 'U%s%d%03d.;1' % (grp.upper(), L, i), 'rr': nid, 'jol': nid, 'udf': s}
+        return nid
+    cases = []
+    k = 0
+    for w in chosen:
+        order = [uname('a', w['l1'], i) for i in range(w['n1'])] + [uname('b', w['l2'], i) for i in range(w['n2'])]
+        for cfg in ({'level': 3, 'joliet': 0, 'rr': '', 'udf': True, 'xa': False},
+                    {'level': 3, 'joliet': 3, 'rr': '1.09', 'udf': True, 'xa': False}):
+            base = [{'a': 'New', 'cfg': cfg, 'mode': 'lazy'}]
+            adds = [{'a': 'AddFp', 'blob': 's', 'iso': ['-'], 'jol': ['-'], 'udf': [n]} for n in order]
+            more = uname('c', 44, 0)
+            for v in (adds,
+                      adds + [{'a': 'AddFp', 'blob': 's', 'iso': ['-'], 'jol': ['-'], 'udf': [more]}],
+                      adds + [{'a': 'AddFp', 'blob': 's', 'iso': ['-'], 'jol': ['-'], 'udf': [more]},
+                              {'a': 'RmFile', 'ns': 'udf', 'p': [order[-1]]}],
+                      adds + [{'a': 'Reopen', 'same': False},
+                              {'a': 'AddFp', 'blob': 's', 'iso': ['-'], 'jol': ['-'], 'udf': [more]}]):
+                k += 1
+                cases.append(('f%d' % k, base + v, 5))
+    return names, cases, [st]
